@@ -45,6 +45,15 @@ judged there, M = also compared with the model; streams marked + were added by t
   positional / list file + base dir / gzip         cli-* (P M): absolute, relative, './', '//' spellings; list decorations; +cli-flat-cwd:
                                                    BARE names with the working directory = base directory (default --ldir, '.', './'),
                                                    './name', names starting with '-' after '--' (P M); +list file on stdin (`-l -`)
+  gzip-compressed                                  until the gzip audit: ONE plain member (gzip.compress) under a '.gz' name only.  +cli-gzip-containers, +api-gzip-
+                                                   containers, and a third of the compressed inputs of every other cli stream: the genome in the gzip containers real
+                                                   tools write (GZ_FLAVOURS: `gzip FILE` with FNAME / MTIME / OS, -1 / -9 / stored, flushed deflate blocks, FEXTRA /
+                                                   FCOMMENT / FHCRC / FTEXT, SEVERAL MEMBERS cut at record / line boundaries, mid-line, after the first byte, before
+                                                   the last, fixed blocks (bgzip BGZF with its empty end-of-file member, pigz -i), empty members first / middle / last,
+                                                   members of different levels / headers) and random combinations; with and without the '.gz' suffix (the command
+                                                   decides by content); the same genome in two containers and uncompressed in one batch; positional / list file /
+                                                   signature file created from the compressed files (sig how=files); query_parse and calc_file_signatures + query with
+                                                   compression 'auto' and 'gzip'.  Judged: row = row of the UNCOMPRESSED genome queried alone, label = stem (P M)
   genome classes                                   6 bundled query genomes; +cli-genome-classes: empty file, header only, no k-mer,
                                                    a reference genome itself (distance 0), mixed into batches of all channels (P M)
   alone or within any batch, any order, repeats    cli-exhaustive-orders, cli-random (same file twice, duplicate labels) (P M)
@@ -77,14 +86,17 @@ import csv
 import gc
 import glob
 import gzip
+import hashlib
 import io
 import itertools
 import json
 import os
 import pathlib
+import struct
 import subprocess
 import sys
 import time
+import zlib
 
 PROP = 'C08'
 RULE = ('label: names dir+stem+ext+gz, exhaustively all token strings of length <= 4 over {x . .fa .gz .fasta /} '
@@ -101,7 +113,14 @@ RULE = ('label: names dir+stem+ext+gz, exhaustively all token strings of length 
         'no model).  api: chunk sizes; non-trivial: >= 2 distinct genomes and a chunk size smaller than the number of '
         'references; api-call-forms: chunk size as int / NumPy integer / keyword / positional field, inputs and query '
         'signatures in every accepted container, three exporters, progress arguments, shared QueryParams / parse_kw objects '
-        '(labels judged only where the caller states them).  malformed-channels: two input channels at once, empty signature file')
+        '(labels judged only where the caller states them).  malformed-channels: two input channels at once, empty signature file.  '
+        'cli-gzip-containers / api-gzip-containers (and a third of the compressed inputs of the other cli streams): the genome as a gzip '
+        'file of every make -- one member or several (cut at record or line boundaries, mid-line, after the first / before the last byte, '
+        'fixed blocks as bgzip / pigz -i write them), empty members first / middle / last, deflate levels 0..9 mixed between members, '
+        'flush points inside a member, header fields FNAME / FCOMMENT / FEXTRA / FHCRC / FTEXT / MTIME / XFL / OS on all / some members -- '
+        'under a name with or without .gz, positional / list file / signature file created from those files / query_parse and '
+        'calc_file_signatures with compression auto and gzip; the row must equal the row of the uncompressed genome queried alone, the '
+        'label the stem; non-trivial as for cli / api')
 TRUSTED = ['click (argument parsing, click.File / click.Path parameter types, CliRunner), concurrent.futures process '
            'pool, OpenMP and the progress meter are runtime: not modelled; the run checks that -c N and --progress '
            'leave the rows unchanged',
@@ -109,7 +128,11 @@ TRUSTED = ['click (argument parsing, click.File / click.Path parameter types, Cl
            '(path_str, posix_join, basename, strip, universal_newlines) and compared with the real ones on every run',
            'the content of a row is compared with the implementation\'s own singleton run of that genome '
            '(the property is relational); what the content should be is C03/C09/C10/C11',
-           'csv / json modules to read the output back; gzip to produce compressed copies',
+           'csv / json modules to read the output back; gzip to produce the one-member compressed copies',
+           'gzip containers (RFC 1952) are written by the harness itself, member by member and header field by header field; zlib supplies '
+           'the raw deflate streams and crc32, and an independent zlib.decompressobj loop checks on every file that the container holds '
+           'exactly the genome\'s bytes in the intended number of members.  That such a file IS the same genome is RFC 1952 (a gzip file '
+           'is a series of members) -- what gzip -d, zcat and Python\'s gzip module implement',
            'gambit signatures create -d -i IDS to build the signature files (order of signatures: C13); calc_file_signatures on a '
            'single file + dump_signatures to build the API-written signature files and the query signatures of the api cases',
            'subprocess / `python -m gambit` for the own-process cases; h5py to read the ids of the bundled signature file']
@@ -194,8 +217,133 @@ def _relpath(inp, flat=False):
 	"""path of the input's file relative to the scratch root (the harness's own naming scheme)"""
 	if flat:
 		return 'flat/' + _name(inp)
-	parts = [f'g{inp["g"]}'] + ([inp['dir']] if inp['dir'] else []) + [_name(inp)]
+	parts = [f'g{inp["g"]}']
+	if inp.get('gzc'):
+		# the same name may hold the same genome in different gzip containers: one directory per container description
+		parts.append('z' + hashlib.md5(json.dumps(inp['gzc'], sort_keys=True).encode()).hexdigest()[:10])
+	parts += ([inp['dir']] if inp['dir'] else []) + [_name(inp)]
 	return '/'.join(parts)
+
+
+# ---- gzip containers ------------------------------------------------------------------------------
+# RFC 1952: a gzip file is a SERIES of members, each with its own header (optional FEXTRA / FNAME / FCOMMENT / FHCRC fields, MTIME, XFL,
+# OS), a raw deflate stream and a CRC32 + ISIZE trailer; the file stands for the concatenation of the members' data.  `cat a.gz b.gz`,
+# bgzip (BGZF: blocks of < 64 KiB with a 'BC' extra subfield and an empty end-of-file member), `pigz -i` and appending `gzip -c`
+# produce several members; `gzip FILE` stores the file name (FNAME) and its modification time.  The members are written here byte by
+# byte (zlib only supplies the raw deflate streams), so that every header field and member boundary is the harness's own choice.
+
+def _gz_member(data, level=6, hdr=None, flush=None):
+	hdr = hdr or {}
+	flg = (1 if hdr.get('text') else 0) | (2 if hdr.get('hcrc') else 0) | (4 if hdr.get('extra') is not None else 0) \
+		| (8 if hdr.get('name') is not None else 0) | (16 if hdr.get('comment') is not None else 0)
+	co = zlib.compressobj(level, zlib.DEFLATED, -15, 9, {'filtered': zlib.Z_FILTERED, 'huffman': zlib.Z_HUFFMAN_ONLY, 'rle': zlib.Z_RLE,
+	                                                  'fixed': zlib.Z_FIXED}.get(hdr.get('strategy'), zlib.Z_DEFAULT_STRATEGY))
+	body = b''
+	if flush and data:
+		# several deflate blocks inside ONE member (what pigz without -i and flushing writers produce)
+		n = flush.get('n', 2)
+		mode = zlib.Z_FULL_FLUSH if flush.get('mode') == 'full' else zlib.Z_SYNC_FLUSH
+		step = max(1, len(data) // (n + 1))
+		for k in range(0, len(data), step):
+			body += co.compress(data[k:k + step]) + co.flush(mode)
+	else:
+		body += co.compress(data)
+	body += co.flush()
+	trailer = struct.pack('<II', zlib.crc32(data) & 0xffffffff, len(data) & 0xffffffff)
+
+	def head(extra):
+		h = struct.pack('<BBBBIBB', 0x1f, 0x8b, 8, flg, hdr.get('mtime', 0) & 0xffffffff, hdr.get('xfl', 0), hdr.get('os', 255))
+		if extra is not None:
+			h += struct.pack('<H', len(extra)) + extra
+		if hdr.get('name') is not None:
+			h += hdr['name'].encode('latin-1') + b'\x00'
+		if hdr.get('comment') is not None:
+			h += hdr['comment'].encode('latin-1') + b'\x00'
+		if hdr.get('hcrc'):
+			h += struct.pack('<H', zlib.crc32(h) & 0xffff)
+		return h
+	extra = hdr.get('extra')
+	if extra == 'bgzf':
+		# BGZF: subfield 'B','C', length 2, value = total size of the member - 1
+		total = len(head(b'BC\x02\x00\x00\x00')) + len(body) + 8
+		if total > 65536:
+			raise RuntimeError('harness error: BGZF member larger than 64 KiB')
+		extra = b'BC\x02\x00' + struct.pack('<H', total - 1)
+	elif extra is not None:
+		extra = bytes.fromhex(extra)
+	return head(extra) + body + trailer
+
+
+def _gz_cuts(data, gzc):
+	"""the offsets at which the genome's bytes are divided into members"""
+	cut = gzc.get('cut', 'single')
+	n = len(data)
+	if cut == 'single':
+		offs = []
+	elif cut == 'records':            # one member per FASTA record
+		offs = [k for k in range(1, n) if data[k:k + 1] == b'>' and data[k - 1:k] in (b'\n', b'\r')]
+	elif cut == 'lines':              # at the line boundaries nearest to the given fractions of the file
+		offs = []
+		for f in gzc['at']:
+			k = data.find(b'\n', int(f * n))
+			if k >= 0:
+				offs.append(k + 1)
+	elif cut == 'frac':               # at raw byte offsets: in the middle of a line, of a header, of a record
+		offs = [int(f * n) for f in gzc['at']]
+	elif cut == 'bytes':              # absolute offsets, negative ones from the end (1: after the '>'; -1: before the final newline)
+		offs = [k if k >= 0 else n + k for k in gzc['at']]
+	elif cut == 'block':              # fixed-size blocks (bgzip: 65280 bytes, pigz -i: its block size)
+		offs = list(range(gzc['block'], n, gzc['block']))
+	else:
+		raise ValueError(cut)
+	return sorted(set(k for k in offs if 0 < k < n))
+
+
+def _gz_container(data, gzc):
+	"""the genome's bytes as a gzip file made the way `gzc` says (see _rand_gzc for the fields)"""
+	offs = [0] + _gz_cuts(data, gzc) + [len(data)]
+	parts = [data[a:b] for a, b in zip(offs, offs[1:])]
+	empty = gzc.get('empty', [])
+	if 'mid' in empty and len(parts) >= 2:
+		parts.insert(len(parts) // 2, b'')
+	if 'first' in empty:
+		parts.insert(0, b'')
+	if 'last' in empty:
+		parts.append(b'')
+	if gzc.get('eof_block'):          # bgzip's end-of-file marker: an empty BGZF member
+		parts.append(b'')
+	levels = gzc.get('levels') or [6]
+	hdr = gzc.get('hdr')
+	on = gzc.get('hdr_on', 'all')
+	out = b''
+	for k, part in enumerate(parts):
+		h = hdr if (on == 'all' or (on == 'first' and k == 0) or (on == 'rest' and k > 0) or (on == 'alt' and k % 2 == 1)) else None
+		out += _gz_member(part, levels[k % len(levels)], h, gzc.get('flush'))
+	# the harness's own sanity check with an independent reader: the container stands for exactly the genome's bytes
+	got, rest, nmemb = b'', out, 0
+	while rest:
+		d = zlib.decompressobj(31)
+		got += d.decompress(rest) + d.flush()
+		if not d.eof:
+			raise RuntimeError('harness error: gzip member does not end')
+		rest = d.unused_data
+		nmemb += 1
+	if got != data or nmemb != len(parts):
+		raise RuntimeError(f'harness error: gzip container {gzc} does not hold the genome')
+	return out
+
+
+def _is_gzip(inp):
+	"""the CONTENT is gzip: the name says so (one plain member, as before) or a container description is given (with or without
+	the '.gz' suffix in the name -- the command decides by the content)"""
+	return bool(inp['gz'] or inp.get('gzc'))
+
+
+def _file_bytes(inp):
+	data = _S['genomes'][inp['g']]
+	if inp.get('gzc'):
+		return _gz_container(data, inp['gzc'])
+	return gzip.compress(data, mtime=0) if inp['gz'] else data
 
 
 def _materialise(inp, flat=False):
@@ -205,13 +353,17 @@ def _materialise(inp, flat=False):
 	if not os.path.exists(path):
 		os.makedirs(os.path.dirname(path), exist_ok=True)
 		with open(path, 'wb') as f:
-			f.write(gzip.compress(data, mtime=0) if inp['gz'] else data)
+			f.write(_file_bytes(inp))
 	elif flat:
 		# one directory for all genomes: the generator has to keep the names of different genomes apart
 		with open(path, 'rb') as f:
 			have = f.read()
-		if (gzip.decompress(have) if inp['gz'] else have) != data:
+		if (gzip.decompress(have) if have[:2] == b'\x1f\x8b' else have) != data:
 			raise RuntimeError(f'harness error: flat name {_name(inp)!r} used for two genomes')
+		want = _file_bytes(inp)
+		if have != want:              # same genome under the same name in another container: the case at hand decides
+			with open(path, 'wb') as f:
+				f.write(want)
 	return rel
 
 
@@ -418,16 +570,26 @@ def _sigfile_noids(gs):
 	return _S['sigfiles'][key]
 
 
-def _sigfile(gs, ids):
-	"""signature file holding the signatures of genomes gs under the given ids"""
-	key = json.dumps([gs, ids])
+class _Unbuildable(Exception):
+	"""`signatures create` (trusted, a preparation step) failed on the inputs' own files: the case cannot be judged"""
+
+
+def _sigfile(gs, ids, inputs=None):
+	"""signature file holding the signatures of genomes gs under the given ids; computed from the plain reference copies of the
+	genomes, or (inputs given) from the inputs' own files -- whatever their names and gzip containers are"""
+	key = json.dumps([gs, ids, inputs], sort_keys=True)
 	if key not in _S['sigfiles']:
 		path = _tmp('.gs')
 		idf = _tmp('.ids')
 		with open(idf, 'w', encoding='utf-8', newline='') as f:
 			f.write(''.join(i + '\n' for i in ids))
-		files = [os.path.join(_S['root'], _materialise(dict(g=g, dir='ref', stem=f'genome{g}', ext='.fasta', gz=False))) for g in gs]
+		if inputs is not None:
+			files = [os.path.join(_S['root'], _materialise(i)) for i in inputs]
+		else:
+			files = [os.path.join(_S['root'], _materialise(dict(g=g, dir='ref', stem=f'genome{g}', ext='.fasta', gz=False))) for g in gs]
 		err = _invoke(['signatures', 'create', '-d', '-o', path, '-i', idf, '--no-progress'] + files)
+		if err is not None and inputs is not None:
+			raise _Unbuildable(err)
 		if err is not None:
 			raise RuntimeError('could not build signature file: ' + err)
 		_S['sigfiles'][key] = path
@@ -622,6 +784,8 @@ def _cli_plan(c):
 			path = _sigfile_api(gs, ids, sig)
 		elif sig['how'] == 'noids':
 			path = _sigfile_noids(gs)
+		elif sig['how'] == 'files':          # `signatures create -i IDS` on the inputs' own (compressed) files
+			path = _sigfile(gs, ids, inputs)
 		else:
 			raise ValueError(sig)
 		args = ['-s', path]
@@ -669,7 +833,18 @@ def k_cli(ctx, cases):
 
 
 def _k_cli(ctx, cases):
-	plans = [_cli_plan(c) for c in cases]
+	plans, judged = [], []
+	for c in cases:
+		try:
+			plans.append(_cli_plan(c))
+			judged.append(c)
+		except _Unbuildable as e:
+			# not a statement about `query`: reported as a broken obligation of the trusted base, the campaign goes on (the same
+			# containers reach `query` itself through the positional and list-file cases)
+			ctx.count('cli:sigfile-from-inputs-unbuildable')
+			ctx.broke('preparation: `gambit signatures create` failed on harness-made genome files (valid FASTA / gzip), so the '
+			          'signature-file channel could not be judged for them', f'case {c}: {e}')
+	cases = judged
 	ans = ctx.model([(807, p[2]) for p in plans]) if ctx.model_ok else None
 	for j, c in enumerate(cases):
 		args, npos, _, stdin = plans[j]
@@ -727,6 +902,7 @@ def _k_cli(ctx, cases):
 				if row[2] != ref:
 					other = [h for h in range(NG) if _reference(h, fmt, strict) == row[2]]
 					bad = (f'row {n} (input {c["inputs"][n]}) does not have the content of that genome queried alone'
+					       + (' as a plain FASTA file [the input is a gzip file, see its gz / gzc fields]' if _is_gzip(c['inputs'][n]) and c['channel'] != 'sig' else '')
 					       + (f'; it has the content of genome {other[0]}' if other else ''))
 					break
 				want = _stem_expected(c, n)
@@ -794,8 +970,26 @@ def _api_call(c, gs, labels, state):
 	from gambit.seq import SequenceFile
 	from gambit.sigs.calc import calc_file_signatures
 	db = _db()
-	paths = [os.path.join(_S['root'], _materialise(dict(g=g, dir='ref', stem=f'genome{g}', ext='.fasta', gz=False))) for g in gs]
-	files = SequenceFile.from_paths(paths, 'fasta', 'auto')
+	if c.get('files'):
+		# the genomes as files of the harness's choosing (names, gzip containers); compression 'auto' is what the command line
+		# passes, 'gzip' the explicit form (only where every file is gzip)
+		comp = c.get('compression', 'auto')
+		if [i['g'] for i in c['files']] != list(c['gs']):
+			raise RuntimeError('harness error: files and gs of an api case disagree')
+		by_g = {}
+		for i in c['files']:
+			by_g.setdefault(i['g'], []).append(i)
+		# (the `reuse` form calls with another arrangement of the same genomes first: take each genome's files in turn)
+		seen = {}
+		paths = []
+		for g in gs:
+			k = seen.get(g, 0)
+			seen[g] = k + 1
+			paths.append(os.path.join(_S['root'], _materialise(by_g[g][k % len(by_g[g])])))
+		files = SequenceFile.from_paths(paths, 'fasta', comp)
+	else:
+		paths = [os.path.join(_S['root'], _materialise(dict(g=g, dir='ref', stem=f'genome{g}', ext='.fasta', gz=False))) for g in gs]
+		files = SequenceFile.from_paths(paths, 'fasta', 'auto')
 	cs = c['chunksize']
 	cs_as = c.get('cs_as', 'int')
 	if cs_as == 'np' and cs is not None:
@@ -1011,9 +1205,94 @@ STEMS = ['A1', 'x', 'my genome', 'GCF_000.1', 'a,b', 'x.fa', 'q"uote', 's.gz', '
 EXTS = FASTA_EXT + ['', '.txt', '.FA', '.fas', '.gb']
 
 
+# gzip containers, by the tools that make them (every one of them a valid gzip file that expands to the genome's bytes):
+BGZF_HDR = dict(extra='bgzf', os=255)
+GZ_FLAVOURS = [
+	('gzip-cli', dict(cut='single', levels=[6], hdr=dict(name='orig name.fasta', mtime=1700000000, os=3))),         # `gzip FILE`
+	('gzip-9', dict(cut='single', levels=[9], hdr=dict(name='x.fa', mtime=1, os=3, xfl=2))),                          # `gzip -9`
+	('gzip-1', dict(cut='single', levels=[1], hdr=dict(mtime=2 ** 31 + 5, os=3, xfl=4))),                             # `gzip -1 -n`
+	('stored', dict(cut='single', levels=[0])),                                                                       # level 0
+	('flushed', dict(cut='single', levels=[6], flush=dict(n=5, mode='sync'))),                                        # pigz (one member, many blocks)
+	('full-flushed', dict(cut='single', levels=[4], flush=dict(n=3, mode='full'), hdr=dict(comment='made by a flushing writer'))),
+	('hdr-all', dict(cut='single', levels=[6], hdr=dict(name='n', comment='c', extra='4142020001ff', hcrc=True, text=True, mtime=123456, os=0))),
+	('cat-records', dict(cut='records', levels=[6])),                                                                 # cat rec1.gz rec2.gz ...
+	('cat-records-named', dict(cut='records', levels=[9, 1], hdr=dict(name='part.fa', mtime=1600000000, os=3))),
+	('cat-two', dict(cut='lines', at=[0.5], levels=[6, 9])),                                                          # cat a.gz b.gz
+	('cat-mid-line', dict(cut='frac', at=[0.37], levels=[6])),
+	('cat-mid-many', dict(cut='frac', at=[0.1, 0.2, 0.45, 0.7, 0.99], levels=[1, 6, 9, 0])),
+	('cut-after-gt', dict(cut='bytes', at=[1], levels=[6])),                                                          # first member holds only '>'
+	('cut-before-end', dict(cut='bytes', at=[-1], levels=[6])),                                                       # last member: final newline
+	('empty-first', dict(cut='single', levels=[6], empty=['first'])),                                                 # `gzip -c /dev/null; gzip -c x`
+	('empty-last', dict(cut='single', levels=[6], empty=['last'])),
+	('empty-mid', dict(cut='lines', at=[0.3, 0.6], levels=[6], empty=['mid'])),
+	('empty-all', dict(cut='records', levels=[6], empty=['first', 'mid', 'last'], hdr=dict(name='e'), hdr_on='alt')),
+	('bgzip', dict(cut='block', block=65280, levels=[6], hdr=BGZF_HDR, eof_block=True)),                              # bgzip (BGZF)
+	('bgzip-small', dict(cut='block', block=1000, levels=[6], hdr=BGZF_HDR, eof_block=True)),
+	('pigz-i', dict(cut='block', block=2048, levels=[6], hdr=dict(name='pig.fa', mtime=1650000000, os=3), hdr_on='first')),   # pigz -i -b
+	('blocks-512', dict(cut='block', block=512, levels=[9])),
+	('hdr-rest', dict(cut='lines', at=[0.25, 0.75], levels=[6], hdr=dict(comment='appended', hcrc=True), hdr_on='rest')),
+	('huffman', dict(cut='lines', at=[0.5], levels=[6], hdr=dict(strategy='huffman'))),
+]
+
+
+def _rand_gzc(rng):
+	"""a random gzip container description:
+	  cut      single | records | lines (at fractions) | frac (raw byte offsets at fractions) | bytes (absolute offsets) | block (size)
+	  levels   deflate levels 0..9, taken in turn by the members
+	  empty    empty members: first / mid / last
+	  hdr      optional header fields of the members: name, comment, extra (hex or 'bgzf'), hcrc, text, mtime, os, xfl, strategy
+	  hdr_on   all | first | rest | alt: which members carry them
+	  flush    deflate blocks inside a member (sync / full flush points)
+	  eof_block  bgzip's empty end-of-file member"""
+	if rng.random() < 0.3:
+		return dict(rng.choice(GZ_FLAVOURS)[1])
+	cut = rng.choice(['single', 'records', 'lines', 'frac', 'frac', 'bytes', 'block'])
+	gzc = dict(cut=cut, levels=[rng.randint(0, 9) for _ in range(rng.randint(1, 3))])
+	if cut in ('lines', 'frac'):
+		gzc['at'] = sorted(round(rng.random(), 3) for _ in range(rng.choice([1, 1, 2, 3, 8])))
+	elif cut == 'bytes':
+		gzc['at'] = sorted(set(rng.choice([1, 2, 5, 60, 61, 100, 1024, -1, -2, -60, -61, -1000]) for _ in range(rng.randint(1, 3))))
+	elif cut == 'block':
+		gzc['block'] = rng.choice([64, 100, 512, 1000, 1024, 4096, 5000, 65280])
+	r = rng.random()
+	if r < 0.3:
+		gzc['empty'] = rng.sample(['first', 'mid', 'last'], rng.randint(1, 3))
+	r = rng.random()
+	if r < 0.5:
+		hdr = {}
+		if rng.random() < 0.6:
+			hdr['name'] = rng.choice(['genome.fasta', 'other.fa', 'x', 'sp ace.fna', 'caf\xe9.fa'])
+		if rng.random() < 0.3:
+			hdr['comment'] = rng.choice(['', 'a comment', '>not a record'])
+		if rng.random() < 0.3:
+			hdr['extra'] = rng.choice(['', '4142020001ff', '58590000', '00' * 40])
+		if rng.random() < 0.3:
+			hdr['hcrc'] = True
+		if rng.random() < 0.3:
+			hdr['text'] = True
+		if rng.random() < 0.6:
+			hdr['mtime'] = rng.choice([1, 1700000000, 2 ** 32 - 1, 86400])
+		hdr['os'] = rng.choice([0, 3, 7, 11, 255])
+		if rng.random() < 0.3:
+			hdr['xfl'] = rng.choice([2, 4])
+		if rng.random() < 0.15:
+			hdr['strategy'] = rng.choice(['filtered', 'huffman', 'rle', 'fixed'])
+		gzc['hdr'] = hdr
+		gzc['hdr_on'] = rng.choice(['all', 'all', 'first', 'rest', 'alt'])
+	elif r < 0.6 and cut == 'block' and gzc['block'] >= 512:
+		gzc['hdr'], gzc['eof_block'] = dict(BGZF_HDR), rng.random() < 0.8
+	if rng.random() < 0.15:
+		gzc['flush'] = dict(n=rng.randint(1, 6), mode=rng.choice(['sync', 'full']))
+	return gzc
+
+
 def _rand_input(rng, g=None):
-	return dict(g=rng.randrange(NG) if g is None else g, dir=rng.choice(['', '', 'sub', 'a/b', 'sp ace']),
-	            stem=rng.choice(STEMS), ext=rng.choice(EXTS), gz=rng.random() < 0.5)
+	inp = dict(g=rng.randrange(NG) if g is None else g, dir=rng.choice(['', '', 'sub', 'a/b', 'sp ace']),
+	           stem=rng.choice(STEMS), ext=rng.choice(EXTS), gz=rng.random() < 0.5)
+	# a third of the compressed inputs of EVERY cli stream come in some other gzip container than one plain member
+	if inp['gz'] and rng.random() < 0.35:
+		inp['gzc'] = _rand_gzc(rng)
+	return inp
 
 
 def _rand_lf(rng):
@@ -1032,7 +1311,10 @@ FLAT_BASES = ['A', 'my genome ', 'a,b', 'GCF_000.', 'x.fa.', '-dash', 'gén', '.
 def _flat_input(rng):
 	"""an input of the 'flat' cases: all files share one directory, so the genome's index is part of the stem"""
 	g = rng.randrange(NGX)
-	return dict(g=g, dir='', stem=rng.choice(FLAT_BASES) + str(g), ext=rng.choice(FASTA_EXT + ['', '.txt']), gz=rng.random() < 0.5)
+	inp = dict(g=g, dir='', stem=rng.choice(FLAT_BASES) + str(g), ext=rng.choice(FASTA_EXT + ['', '.txt']), gz=rng.random() < 0.5)
+	if inp['gz'] and rng.random() < 0.35:
+		inp['gzc'] = _rand_gzc(rng)
+	return inp
 
 
 def generate(ctx):
@@ -1156,6 +1438,58 @@ def generate(ctx):
 			c['ids'] = [f'x{m}-{g}' for m, g in enumerate(gs)]
 		yield 'cli', c
 		ctx.count('stream:cli-genome-classes')
+
+	# ---- 5a'. cli / api: gzip containers.  Every flavour of GZ_FLAVOURS once (channel, spelling, format, cores in rotation), then
+	#      random containers; with and without the '.gz' suffix; mixed with plain and ordinarily compressed files in one batch;
+	#      positional / list file / signature file made from the compressed files; query_parse and calc_file_signatures + query with
+	#      compression 'auto' and 'gzip'.  The row has to be the row of the UNCOMPRESSED genome queried alone.
+	def gz_input(gzc, g=None, suffix=True):
+		g = rng.randrange(NGX if rng.random() < 0.15 else NG) if g is None else g
+		return dict(g=g, dir=rng.choice(['', 'z']), stem=rng.choice(['A1', 'my genome', 'GCF_000.1', 'x']) + f'_{g}',
+		            ext=rng.choice(FASTA_EXT if suffix else FASTA_EXT + ['']), gz=suffix, gzc=gzc)
+
+	def gz_case(n, inputs):
+		ch = ['pos', 'list', 'pos', 'sig'][n % 4]
+		c = dict(channel=ch, inputs=inputs, cores=[None, 1, 2, 3][(n // 4) % 4], progress=n % 3 == 0, fmt=['csv', 'json', 'archive'][n % 3])
+		if ch == 'pos':
+			c['form'] = ['abs', 'rel', 'dot', 'reldot'][(n // 2) % 4]
+		elif ch == 'list':
+			c['lf'] = dict(ldir=['abs', 'default', 'rel'][(n // 4) % 3])
+		else:
+			c['ids'] = [f'z{m}' for m in range(len(inputs))]
+			c['sig'] = dict(how='files')
+		return c
+
+	flav = list(GZ_FLAVOURS)
+	rng.shuffle(flav)                 # (every flavour in one cli case; channel / format / neighbours differ from seed to seed)
+	for n, (fname, gzc) in enumerate(flav):
+		inputs = [gz_input(gzc, suffix=n % 5 != 4)]
+		if n % 2 == 1:
+			inputs.append(_rand_input(rng))
+		if n % 3 == 2:
+			inputs.insert(0, gz_input(flav[(n + 7) % len(flav)][1]))
+		yield 'cli', gz_case(n, inputs)
+		ctx.count('stream:cli-gzip-containers')
+		ctx.count('gzip-flavour:' + fname)
+	for n in range(ctx.pick(16, 200)):
+		k = rng.choice([1, 2, 3, 4])
+		inputs = [gz_input(_rand_gzc(rng), suffix=rng.random() < 0.75) for _ in range(k)]
+		if k >= 2 and rng.random() < 0.4:
+			inputs[0] = dict(inputs[1], gzc=_rand_gzc(rng))          # the same genome and name twice, in two containers
+		if k >= 3 and rng.random() < 0.5:
+			inputs[-1] = _plain(inputs[0]['g'])                       # ... and uncompressed in the same batch
+		yield 'cli', gz_case(n + len(flav), inputs)
+		ctx.count('stream:cli-gzip-containers')
+	for n in range(ctx.pick(12, 80)):
+		k = rng.choice([1, 2, 3])
+		files = [gz_input(rng.choice(GZ_FLAVOURS)[1] if n % 2 else _rand_gzc(rng), suffix=rng.random() < 0.7) for _ in range(k)]
+		c = dict(gs=[i['g'] for i in files], files=files, chunksize=rng.choice([None, 1, 50, 1000]), via=['parse', 'query'][n % 2],
+		         compression=['auto', 'auto', 'gzip'][n % 3], export=['json', 'csv', 'archive'][n % 3],
+		         inputs_as=rng.choice(['str', 'tuple'] if n % 2 == 0 else ['str', 'QueryInput', 'mixed']))
+		if c['compression'] == 'auto' and rng.random() < 0.4:
+			c['files'][0] = dict(_plain(c['files'][0]['g']), dir='zp')      # a plain file among them
+		yield 'api', c
+		ctx.count('stream:api-gzip-containers')
 
 	# ---- 5b. cli: bare file names, the working directory holds the files (and is the default base directory of the list)
 	for n in range(ctx.pick(12, 60)):
